@@ -4,6 +4,7 @@ C13 — terminal payload types are reproduced faithfully everywhere they are use
 carry the validated type string of *that* terminal)
 -/
 import KikiVerif.Proofs.Emit
+import KikiVerif.Properties.C09
 
 namespace KikiVerif.C13
 open KikiVerif KikiVerif.Emit
@@ -27,6 +28,14 @@ theorem C13_use_sites {f : VFile.File} {enc : Encode.Enc} {t : Table.Table} {sha
     | cons v vs ih => intro k; simp only [List.zipIdx_cons, List.map_cons, Function.comp_apply]; rw [ih]
   exact this _ 0
 
+/-- **C13, CST side**: path segments and generic arguments reach the AST in the order written, at every
+nesting depth (`unType` prints them in list order; the printed sequence equals the input tokens) -/
+theorem C13_type_order (toks : List Token) (fuel : Nat) (t : FrontParse.CTree)
+    (h : FrontParse.parse toks fuel = some (.ok t)) :
+    ∃ ast, FrontParse.cstToAst t = some ast ∧ Spec.unFile ast = toks.map Spec.erase :=
+  C09.C09_flatten toks fuel t h
+
 end KikiVerif.C13
 
 #print axioms KikiVerif.C13.C13_use_sites
+#print axioms KikiVerif.C13.C13_type_order
